@@ -1,6 +1,11 @@
 package h
 
 import (
+	"cosmossdk.io/math"
+	transfertypes "github.com/cosmos/ibc-go/v8/modules/apps/transfer/types"
+	channeltypes "github.com/cosmos/ibc-go/v8/modules/core/04-channel/types"
+
+	fwdtypes "github.com/noble-assets/orbiter/v2/types/controller/forwarding"
 	"github.com/noble-assets/orbiter/v2/types/core"
 	"github.com/noble-assets/orbiter/v2/zzverif/verif"
 )
@@ -12,6 +17,7 @@ func init() {
 	reg("H_C03_faults", H_C03_faults)
 	reg("H_C07_packets", H_C07_packets)
 	reg("H_C07_payloads", H_C07_payloads)
+	reg("H_C07_channels", H_C07_channels)
 	reg("H_C11_priors", H_C11_priors)
 }
 
@@ -252,4 +258,33 @@ func H_C11_priors() {
 	verif.Assert(a1[iOrb][0].IsZero(), "nothing-left-on-orbiter")
 	verif.Assert(a1[iOrb][1].Equal(s.priorO), "other-denominations-left-where-they-are")
 	sameGenesis(w1.K.ExportGenesis(w1.Ctx), w2.K.ExportGenesis(w2.Ctx), "same-statistics")
+}
+
+// H_C07_channels: the counterparty's channel end may have any ICS-24 valid identifier (only Noble's own end is channel-N):
+// non-orbiter traffic over such channels is passed through like any other.
+func H_C07_channels() {
+	w := NewWorld(false)
+	w.L.Set(escrow, nativeDenom, math.NewInt(1000000))
+	src := []string{"channel-7", "mychannel01", "channel-abc", "ibc.chan#[42]"}[verif.Choose("source-channel", 4)]
+	port := []string{"transfer", "wasm.noble1abc", "icahost"}[verif.Choose("source-port", 3)]
+	d := transfertypes.FungibleTokenPacketData{Denom: port + "/" + src + "/" + nativeDenom, Amount: "1000", Sender: "sender", Receiver: user2.String()}
+	if verif.Bool("sender-native") {
+		d.Denom = "uatom"
+	}
+	if verif.Bool("memo-with-orbiter-payload") {
+		f, err := fwdtypes.NewInternalForwarding(user1.String())
+		must(err)
+		pl, err := core.NewPayload(f)
+		must(err)
+		d.Memo = verif.EncodeMemo(&core.PayloadWrapper{Orbiter: pl}, 0)
+	}
+	pkt := channeltypes.Packet{Sequence: 7, SourcePort: port, SourceChannel: src, DestinationPort: "transfer", DestinationChannel: "channel-0", Data: verif.EncodeICS20(d)}
+	d0 := verif.StateDigest(w.Ctx)
+	ack := w.MW.OnRecvPacket(w.Ctx, pkt, relayerAddr)
+	verif.Cover("not-for-orbiter")
+	verif.Assert(w.App.calls == 1, "wrapped-application-called-exactly-once")
+	verif.Assert(ack == w.App.lastAck, "acknowledgement-is-the-wrapped-applications")
+	verif.Assert(ack.Success(), "plain-transfer-over-any-valid-channel-succeeds")
+	verif.Assert(verif.StateDigest(w.Ctx) == d0 && len(w.Ev.list) == 0, "orbiter-state-untouched")
+	verif.Assert(!w.L.Bal(user2, nativeDenom).IsZero() || !w.L.Bal(user2, "ibc/VOUCHER").IsZero(), "receiver-credited-by-the-application")
 }
